@@ -19,11 +19,17 @@ class NextRequest(Request, MutableMapping[str, Any]):
 
 
 def ensure_next(iterable: Iterable[bytes]) -> Iterable[bytes]:
-    first_chunk = iterable.__iter__().__next__()
+    # Iterate over one iterator only: `iter(a_list)` starts from the beginning
+    # every time it is called.
+    iterator = iter(iterable)
+    try:
+        first_chunk = next(iterator)
+    except StopIteration:  # the application yields nothing at all
+        return ()
 
     def generator():
         yield first_chunk
-        yield from iterable
+        yield from iterator
 
     return generator()
 
